@@ -39,34 +39,9 @@ func writerState(side ref.Side) ws.State {
 	return 0
 }
 
-// build constructs the writer; ok=false when the constructor legitimately
-// panics for this size ("buffer is too small").
-func build(cfg Config, dst *xport.Rec) (w *wsutil.Writer, model *wops.Model, ok bool) {
-	// the writer only cares about the side bit: on a connection with a negotiated extension the state also
-	// carries StateExtended (and the caller may pass StateFragmented along); neither may change anything
-	st := writerState(cfg.Side) | []ws.State{0, ws.StateExtended, ws.StateFragmented, ws.StateExtended | ws.StateFragmented}[(cfg.N+int(cfg.Op)+cfg.Ext)%4]
-	op := ws.OpCode(cfg.Op)
-	defer func() {
-		if p := recover(); p != nil {
-			if s, isStr := p.(string); isStr && strings.Contains(s, "too small") {
-				ok = false
-				return
-			}
-			panic(p)
-		}
-	}()
-	switch cfg.Ctor {
-	case "NewWriter":
-		w = wsutil.NewWriter(dst, st, op)
-	case "NewWriterSize":
-		w = wsutil.NewWriterSize(dst, st, op, cfg.N)
-	case "NewWriterBufferSize":
-		w = wsutil.NewWriterBufferSize(dst, st, op, cfg.N)
-	case "NewWriterBuffer":
-		w = wsutil.NewWriterBuffer(dst, st, op, make([]byte, cfg.N))
-	case "GetWriter":
-		w = wsutil.GetWriter(dst, st, op, cfg.N)
-	}
+// configure attaches the extensions and the flush mode of cfg to w and
+// returns the reserved bits the frames of a message must then carry.
+func configure(w *wsutil.Writer, cfg Config) func(bool) byte {
 	var rsv func(bool) byte
 	switch cfg.Ext {
 	case 1:
@@ -103,18 +78,105 @@ func build(cfg Config, dst *xport.Rec) (w *wsutil.Writer, model *wops.Model, ok 
 			w.DisableFlush() // idempotent
 		}
 	}
+	return rsv
+}
+
+// stateOf is the state value handed to the writer for cfg: the writer only
+// cares about the side bit; on a connection with a negotiated extension the
+// state also carries StateExtended (and the caller may pass StateFragmented
+// along); neither may change anything.
+func stateOf(cfg Config) ws.State {
+	return writerState(cfg.Side) | []ws.State{0, ws.StateExtended, ws.StateFragmented, ws.StateExtended | ws.StateFragmented}[(cfg.N+int(cfg.Op)+cfg.Ext)%4]
+}
+
+// reset re-targets w with Writer.Reset to a new destination, side and opcode
+// (whatever it was doing before: the application reuses one writer for many
+// connections) and configures it as cfg says. ok=false when the buffer is
+// legitimately too small for the new side's header.
+func reset(w *wsutil.Writer, cfg Config, dst *xport.Rec) (model *wops.Model, ok bool) {
+	defer func() {
+		if p := recover(); p != nil {
+			if s, isStr := p.(string); isStr && strings.Contains(s, "too small") {
+				ok = false
+				return
+			}
+			panic(p)
+		}
+	}()
+	w.Reset(dst, stateOf(cfg), ws.OpCode(cfg.Op))
+	rsv := configure(w, cfg)
+	return wops.NewModel(dst, cfg.Side == ref.SideClient, cfg.Op, cfg.NoFlush, rsv), true
+}
+
+// build constructs the writer; ok=false when the constructor legitimately
+// panics for this size ("buffer is too small").
+func build(cfg Config, dst *xport.Rec) (w *wsutil.Writer, model *wops.Model, ok bool) {
+	st := stateOf(cfg)
+	op := ws.OpCode(cfg.Op)
+	defer func() {
+		if p := recover(); p != nil {
+			if s, isStr := p.(string); isStr && strings.Contains(s, "too small") {
+				ok = false
+				return
+			}
+			panic(p)
+		}
+	}()
+	switch cfg.Ctor {
+	case "NewWriter":
+		w = wsutil.NewWriter(dst, st, op)
+	case "NewWriterSize":
+		w = wsutil.NewWriterSize(dst, st, op, cfg.N)
+	case "NewWriterBufferSize":
+		w = wsutil.NewWriterBufferSize(dst, st, op, cfg.N)
+	case "NewWriterBuffer":
+		w = wsutil.NewWriterBuffer(dst, st, op, make([]byte, cfg.N))
+	case "GetWriter":
+		w = wsutil.GetWriter(dst, st, op, cfg.N)
+	}
+	rsv := configure(w, cfg)
 	return w, wops.NewModel(dst, cfg.Side == ref.SideClient, cfg.Op, cfg.NoFlush, rsv), true
 }
 
 // runSeq applies ops and checks the model after every call.
-func runSeq(c *mon.C, cfg Config, ops []wops.Op, sub string) bool {
+func runSeq(c *mon.C, cfg Config, ops []wops.Op, sub string, later ...stage) bool {
 	dst := xport.NewRec()
 	w, model, ok := build(cfg, dst)
 	if !ok {
 		return true
 	}
+	if !runOps(c, w, model, cfg, ops, nil) {
+		return false
+	}
+	var hist []string
+	for _, st := range later {
+		// the same writer, re-targeted: nothing of what it did before may show
+		hist = append(hist, fmt.Sprintf("<%d ops as %s>, Reset", len(ops), cfg))
+		cfg.Side, cfg.Op, cfg.NoFlush, cfg.Ext = st.cfg.Side, st.cfg.Op, st.cfg.NoFlush, st.cfg.Ext
+		dst = xport.NewRec()
+		if model, ok = reset(w, cfg, dst); !ok {
+			return true
+		}
+		ops = st.ops
+		if !runOps(c, w, model, cfg, ops, hist) {
+			return false
+		}
+	}
+	if cfg.Ctor == "GetWriter" {
+		wsutil.PutWriter(w)
+	}
+	return true
+}
+
+// stage is a later life of one writer: Reset to cfg's side/opcode/options, then ops.
+type stage struct {
+	cfg Config
+	ops []wops.Op
+}
+
+func runOps(c *mon.C, w *wsutil.Writer, model *wops.Model, cfg Config, ops []wops.Op, hist []string) bool {
 	feed := &wops.Feed{}
-	var trace []string
+	trace := append([]string(nil), hist...)
 	for i, op := range ops {
 		c.Count(1)
 		bb, sb := model.Before(w)
@@ -125,9 +187,6 @@ func runSeq(c *mon.C, cfg Config, ops []wops.Op, sub string) bool {
 			c.Fail(viol.Sig, viol.What, map[string]interface{}{"config": cfg.String(), "ops": trace, "failed_at_op": i, "frames_sent": frameSummary(model.Frames)})
 			return false
 		}
-	}
-	if cfg.Ctor == "GetWriter" {
-		wsutil.PutWriter(w)
 	}
 	return true
 }
@@ -249,7 +308,23 @@ func subRandom() mon.Sub {
 				ops = append(ops, op)
 			}
 			ops = append(ops, wops.Op{Kind: wops.Flush})
-			if runSeq(c, cfg, ops, "random") {
+			var later []stage
+			if c.Rng.Intn(3) == 0 {
+				// the writer lives on: Reset to another side / opcode / option set, possibly in
+				// the middle of a message, and a few more operations
+				if c.Rng.Intn(2) == 0 {
+					ops = ops[:len(ops)-1]
+				}
+				for k := 1 + c.Rng.Intn(2); k > 0; k-- {
+					st := stage{cfg: randConfig(c)}
+					for j := 1 + c.Rng.Intn(6); j > 0; j-- {
+						st.ops = append(st.ops, alpha[c.Rng.Intn(len(alpha))])
+					}
+					st.ops = append(st.ops, wops.Op{Kind: wops.Flush})
+					later = append(later, st)
+				}
+			}
+			if runSeq(c, cfg, ops, "random", later...) {
 				kinds := map[int]bool{}
 				for _, o := range ops {
 					kinds[o.Kind] = true
@@ -272,7 +347,7 @@ func subRandom() mon.Sub {
 func subOpcodes() mon.Sub {
 	return mon.Sub{
 		Name: "opcodes", Required: true,
-		N:    func(string) int { return 6 * 3 * 4 },
+		N: func(string) int { return 6 * 3 * 4 },
 		Do: func(c *mon.C) {
 			op := []byte{ref.OpText, ref.OpBinary, ref.OpPing, ref.OpPong, ref.OpClose, ref.OpCont}[c.I%6]
 			side := ref.Side(c.I / 6 % 3)
@@ -294,7 +369,7 @@ func main() {
 		Property: "C06",
 		Level:    "exploration",
 		Rule: "cases: every sequence of depth 3 (quick) / 4 (thorough) over a 30-op alphabet {Write,ReadFrom,WriteThrough} x sizes {0,1,avail-1,avail,avail+1,size,size+1,2size+3} resolved against the live buffer, Grow x 4, FlushFragment, Flush (+ a closing Flush) for 8 configurations (tiny/125/126-boundary buffers, both sides and zero state, DisableFlush, RSV2 extension, wsflate.MessageState, pooled GetWriter); " +
-			"then random sequences of up to 60 ops over all 5 constructors x sizes around the 125/126 and 65535/65536 reservation thresholds. After EVERY call the recording destination is re-parsed by the reference parser and the contract model is checked (whole frames at call boundary, opcode/fin/rsv/mask per frame, plaintext == position-tagged accepted bytes, clean flush emits nothing, fits => one frame, DisableFlush => nothing before Flush and one frame). Plus the one-call helpers WriteMessage / Write{Client,Server}{Message,Text,Binary} x 24 sizes x 3 rounds: exactly one final frame of the given opcode, masked iff client-side, payload == the caller's bytes, caller's slice intact. Built against the poisoning pool shim (a buffer returned to the byte pool is overwritten at once), so a frame that refers to a buffer it already gave back shows the pattern on the wire. evaluations = API calls checked; distinct = (config, first two ops) / (config, length decile, op kinds).",
+			"then random sequences of up to 60 ops over all 5 constructors x sizes around the 125/126 and 65535/65536 reservation thresholds, a third of them continued through one or two Writer.Reset calls (new destination, any side, opcode, extension and flush mode; also from the middle of a message) with the model restarted as for a new writer. After EVERY call the recording destination is re-parsed by the reference parser and the contract model is checked (whole frames at call boundary, opcode/fin/rsv/mask per frame, plaintext == position-tagged accepted bytes, clean flush emits nothing, fits => one frame, DisableFlush => nothing before Flush and one frame). Plus the one-call helpers WriteMessage / Write{Client,Server}{Message,Text,Binary} x 24 sizes x 3 rounds: exactly one final frame of the given opcode, masked iff client-side, payload == the caller's bytes, caller's slice intact. Built against the poisoning pool shim (a buffer returned to the byte pool is overwritten at once), so a frame that refers to a buffer it already gave back shows the pattern on the wire. evaluations = API calls checked; distinct = (config, first two ops) / (config, length decile, op kinds).",
 		Assumptions: []string{"reference frame parser ref.ParseFrames", "fragment boundaries are left to the implementation except in the three clauses the statement fixes", "payload bytes are a position-tagged stream so loss/duplication/reordering is visible"},
 		Subs:        []mon.Sub{subEnum(), subRandom(), subOpcodes(), subWriteMessage()},
 	})
